@@ -138,7 +138,8 @@ class Graph:
         text = b''
         for p, s in zip(parts, sep):
             text += p[1] + s
-        text = text.rstrip(b'\n ') + (b'\n' if f['final_nl'] else b'')
+        # how a file ends: a final line feed, or none — then possibly blanks, a tab or a comment (with trailing blanks) last
+        text = text.rstrip(b'\n ') + (b'\n' if f['final_nl'] else rng.choice([b'', b'', b' ', b'\t', b' -- tail', b' -- tail  ', b'\n// t\t', b'\n-- c ', b'  ']))
         f['text'] = text
 
     def write(self):
